@@ -48,8 +48,9 @@ def bar_expected(obj):
     return base, acc
 
 
-def expected_rows(doc) -> List[List[ECell]]:
-    """One row per structured line (before null-row suppression)."""
+def expected_rows(doc, hidden_as_null=True) -> List[List[ECell]]:
+    """One row per structured line (before null-row suppression).  hidden_as_null=False: invisible barlines are expected as
+    written barlines (for oracles that take the real export as their reference and do not judge that rule)."""
     doc.infos()
     rows = []
     for li, ln in enumerate(doc.lines):
@@ -58,7 +59,7 @@ def expected_rows(doc) -> List[List[ECell]]:
         row = []
         for col, c in enumerate(ln.cells):
             if c.kind == 'bar':
-                base, acc = bar_expected(c.obj)
+                base, acc = bar_expected(c.obj) if hidden_as_null else bar_encoding(c.obj)
                 row.append(ECell('bar', base, c.obj, c.spine, li, col, acc))
             elif c.kind in NOTE_KINDS:
                 row.append(ECell(c.kind, c.obj.canonical_kern(), c.obj, c.spine, li, col))
@@ -127,7 +128,7 @@ def note_problems(text, note, union=None):
             probs.append(f'own signifiers {sorted(own)} not all kept: {sorted(dec)}')
         if not set(dec) <= set(union):
             probs.append(f'signifiers {sorted(set(dec) - set(union))} not written anywhere in the chord')
-    if any(len(d) != 1 and d not in ('yy',) for d in dec):
+    if any(len(d) != 1 and d not in ('yy',) and not (note.rest and RE_PITCH.match(d)) for d in dec):
         probs.append(f'signifier parts are not single characters: {dec}')
     return probs
 
@@ -170,11 +171,15 @@ class ACell:
 
 def annotate(doc, real_doc, ekern_text):
     """-> list of rows of ACell, or None if the real export does not have the expected shape (C03's business)."""
-    exp = suppress(expected_rows(doc))
     lines = ekern_text.split('\n')
     if lines and lines[-1] == '':
         lines = lines[:-1]
     g = [ln.split('\t') for ln in lines] if ekern_text else []
+    exp = suppress(expected_rows(doc))
+    if (len(g) != len(exp) or any(len(a) != len(b) for a, b in zip(g, exp))) and 'hidden_barlines' in doc.tags:
+        # the reference export kept the invisible barlines as lines: annotate it as it is (the oracles that use this grid
+        # compare other exports with it; whether invisible barlines belong in an export is not their question)
+        exp = suppress(expected_rows(doc, hidden_as_null=False))
     if len(g) != len(exp) or any(len(a) != len(b) for a, b in zip(g, exp)):
         return None
     nonblank = [i for i, ln in enumerate(doc.lines) if ln.kind != 'b']
